@@ -14,6 +14,9 @@ writes (buffer):  `wbool 0|1` `wu8 n` `wu16 n` `wi16 n` `wu32 n` `wi32 n` `wu64 
 reads (buffer or stream): `rbool` `ru8` `ru16` `ri16` `ru32` `ri32` `ru64` `ri64` `rf64` `rstr` `rlstr <limit>` `read <n>` `readn <n>` `zreadn <n>`
                   and, buffer only, `rvu64` `rvi64` `rvu32` `rvi32`          → `v=<value> len|left=<n>` | `err:<e> len|left=<n>`
 `recheck` (buffer or stream): the raw values handed out so far, again → `recheck=<v>,<v>,…` | `recheck=.`
+`sentinels` (any state) → texts of the three sentinel errors and `distinct=true`
+`bigrt <str|raw|lstr> <seed> <n> <buf|s<chunk>>` (initialising; 2^20 < n ≤ 2^27) → `v=#<n>:<digest> next=7 left=0`
+`rewriteself <pos> <from> <to>` (buffer): ReWrite(pos, Bytes()[from:to]) → `ok bytes=…` | `panic`
 other (buffer):   `rewrite <pos> <hex>` `rewriteu32 <pos> <v>` → `ok bytes=<hex>` | `panic` ; `bytes` ; `len` ; `reset`
 hex = lower-case pairs, `-` for the empty string. Counts are limited to ±2^20. Stream `rstr`/`rlstr` whose pending
 length field exceeds 2^24 is answered `guard:huge` without executing (the real code would allocate that much).
@@ -58,15 +61,12 @@ def parseHexL : List Char → Option Bytes
     let r ← parseHexL rest
     pure (UInt8.ofNat (x * 16 + y) :: r)
 
-/-- byte `i` of the pattern `p<seed>:<n>` (same formula in go/cmd/c10/run.go) -/
-def patByte (seed i : Nat) : UInt8 := UInt8.ofNat ((seed + 131 * i + 7 * (i / 256)) % 256)
-
 def parsePattern (s : String) : Option Bytes :=
   match (String.ofList (s.toList.drop 1)).splitOn ":" with
   | [a, b] =>
     match parseDec a, parseDec b with
     | some seed, some n =>
-      if seed < 4294967296 ∧ n ≤ 1048576 then some ((List.range n).map (patByte seed)) else none
+      if seed < 4294967296 ∧ n ≤ 1048576 then some (pat seed n) else none
     | _, _ => none
   | _ => none
 
@@ -81,7 +81,7 @@ def hexChar (n : Nat) : Char := if n < 10 then Char.ofNat (48 + n) else Char.ofN
 /-- hex up to 64 bytes, beyond that `#<length>:<digest>` -/
 def showHex (bs : Bytes) : String :=
   if bs.isEmpty then "-"
-  else if bs.length > 64 then s!"#{bs.length}:{bs.foldl (fun h b => (h * 31 + b.toNat + 1) % 4294967296) 0}"
+  else if bs.length > 64 then s!"#{bs.length}:{digest bs}"
   else String.ofList (bs.flatMap (fun b => [hexChar (b.toNat / 16), hexChar (b.toNat % 16)]))
 
 /-- uniform chunks of `k ≥ 1` bytes -/
@@ -173,6 +173,11 @@ def showErr : Err → String
   | .eof => "eof" | .empty => "empty" | .wrongNum => "wrongNum" | .sizeLimit => "sizeLimit"
   | .unexpectedEOF => "unexpectedEOF" | .overflow => "overflow"
 
+/-- the texts of the package's sentinel errors -/
+def errText : Err → String
+  | .empty => "byte.buffer.empty" | .wrongNum => "byte.buffer.wrong.num" | .sizeLimit => "byte.buffer.size.limit"
+  | .eof => "EOF" | .unexpectedEOF => "unexpected EOF" | .overflow => "binary: varint overflows a 64-bit integer"
+
 def showVal : Val → String
   | .bool b => if b then "true" else "false"
   | .u8 x => toString x.toNat | .u16 x => toString x.toNat | .i16 x => toString x.toInt
@@ -214,6 +219,27 @@ def step (st : St) (line : String) : St × String :=
         (.buf (e.take k), s!"ok len={(e.take k).length} full={e.length}")
       else (.buf [], "err:sizeLimit len=0 full=0")
     | _, _ => (.none, "bad-op")
+  | ["bigrt", kind, seed, n, via] =>
+    -- a value of 1 MiB … 128 MiB written, followed by the marker byte 7, and read back (buffer or stream of uniform
+    -- chunks). The oracle does not materialise it: the answer is `Nv.C10.bigrt_answer` (round trip + digest shortcut).
+    match parseU 32 seed, parseDec n with
+    | some seed, some n =>
+      let okKind := kind == "str" || kind == "raw" || kind == "lstr"
+      let viaOk : Option Bool :=   -- some true = stream
+        if via == "buf" then some false
+        else match via.toList with
+          | 's' :: rest => match parseDec (String.ofList rest) with
+            | some k => if 1024 ≤ k ∧ k ≤ 134217728 then some true else none
+            | none => none
+          | _ => none
+      match viaOk with
+      | some stream =>
+        if okKind ∧ 1048577 ≤ n ∧ n ≤ 134217728 then
+          if stream ∧ ¬ (effCfg.strategy = .full ∧ effCfg.zeroLen = .accept) then (.none, "skip:cfg-not-proved")
+          else (.none, s!"v=#{n}:{digestPat seed n} next=7 left=0")
+        else (.none, "bad-op")
+      | none => (.none, "bad-op")
+    | _, _ => (.none, "bad-op")
   | ["sload", e, cs] =>
     match (if e == "0" then some false else if e == "1" then some true else none), parseChunks cs with
     | some e, some cs => let s : Src := ⟨e, cs⟩; (.stream s, s!"ok left={s.flat.length}")
@@ -234,6 +260,15 @@ def step (st : St) (line : String) : St × String :=
           | ["bytes"] => (st, "bytes=" ++ showHex bs)
           | ["len"] => (st, s!"len={bs.length}")
           | ["reset"] => (.buf [], "ok len=0")
+          | ["rewriteself", p, a, b] =>
+            match parseCount p, parseDec a, parseDec b with
+            | some p, some a, some b =>
+              if a ≤ b ∧ b ≤ bs.length then
+                match rewriteSelf p a b bs with
+                | some bs' => (.buf bs', "ok bytes=" ++ showHex bs')
+                | none => (st, "panic")
+              else (st, "bad-op")
+            | _, _, _ => (st, "bad-op")
           | ["tostream", e, spec] =>
             match (if e == "0" then some false else if e == "1" then some true else none), parseChunking spec bs with
             | some e, some cs => let s : Src := ⟨e, cs⟩; (.stream s, s!"ok left={s.flat.length}")
@@ -284,6 +319,7 @@ def isInit : List String → Bool
   | ["load", _] => true
   | "tload" :: _ :: _ => true
   | ["sload", _, _] => true
+  | ["bigrt", _, _, _, _] => true
   | _ => false
 
 def rawOk : Out Val → Option Bytes
@@ -305,6 +341,10 @@ def keptAfter (o : OSt) (ws : List String) (st' : St) : List Bytes :=
       | ["reset"] => []
       | ["rewrite", p, h] => if (parseCount p).isSome && (parseHex h).isSome then [] else o.kept
       | ["rewriteu32", p, v] => if (parseCount p).isSome && (parseU 32 v).isSome then [] else o.kept
+      | ["rewriteself", p, a, b] =>
+        match parseCount p, parseDec a, parseDec b with
+        | some _, some a, some b => if a ≤ b ∧ b ≤ bs.length then [] else o.kept
+        | _, _, _ => o.kept
       | ["tostream", _, _] => match st' with
         | .stream _ => []
         | _ => o.kept
@@ -322,6 +362,8 @@ def keptAfter (o : OSt) (ws : List String) (st' : St) : List Bytes :=
 def stepK (o : OSt) (line : String) : OSt × String :=
   let ws := words line
   match ws, o.st with
+  | ["sentinels"], _ =>
+    (o, s!"empty={errText .empty} wrongNum={errText .wrongNum} sizeLimit={errText .sizeLimit} distinct=true")
   | ["recheck"], .buf _ => (o, "recheck=" ++ (if o.kept.isEmpty then "." else ",".intercalate (o.kept.map showHex)))
   | ["recheck"], .stream _ => (o, "recheck=" ++ (if o.kept.isEmpty then "." else ",".intercalate (o.kept.map showHex)))
   | _, _ =>
